@@ -103,7 +103,7 @@ def run(prop, modname, tier, rule, technique, assumptions=()):
             t0 = time.time()
             stats, viols = bfs(modname, cfg, spec.depth(tier, cfg), cap=spec.cap(tier) if hasattr(spec, "cap") else 200000,
                                pool=pool)
-            results.append({"job": {"cfg": cfg, "depth": spec.depth(tier, cfg)}, "states": stats["states"],
+            results.append({"job": {"cfg": cfg}, "states": stats["states"],
                             "transitions": stats["transitions"], "capped": stats["capped"],
                             "evaluations": stats["transitions"], "traces": stats["transitions"],
                             "nontrivial": stats["states"] - 1, "terminals": 0,
@@ -114,3 +114,22 @@ def run(prop, modname, tier, rule, technique, assumptions=()):
                             "wall": time.time() - t0})
     rep.add_results(results)
     return rep
+
+
+def replay(modname, path):
+    """re-execute a recorded call sequence on a fresh component, printing what each call violates"""
+    import json
+    spec = importlib.import_module(modname)
+    d = json.load(open(path))
+    cfg = d["job"]["cfg"]
+    st = spec.make(cfg)
+    n = 0
+    try:
+        for op in d["hist"]:
+            vs = spec.apply(st, op, True)
+            n += len(vs)
+            print(json.dumps(op), "->", json.dumps(vs, default=repr) if vs else "ok")
+    finally:
+        spec.close(st)
+    print("replayed %d calls, %d violation(s) observed" % (len(d["hist"]), n))
+    return 1 if n else 0
